@@ -379,23 +379,17 @@ class Cycle(Simple, SymmetryStrategy[WC, W]):
 
 
 def future_letters(c, q):
-    """letters that can still follow the prefix q in a word of the class (a sound over-approximation)"""
-    fut = set(c.alphabet) - {p for p in c.patterns if len(p) == 1}
-    if q:
-        last = q[-1]
-        fut -= {x for x in c.alphabet if last + x in c.patterns and all(y == x or last + y in c.patterns or True for y in ())}
-        # after a letter `last`, letter x is impossible for ever if every letter that may follow leads back to the same
-        # situation; we only use the simple two-letter case: alphabet {a,b}, pattern last+x banned and the only other
-        # letter is `last` itself
-        if len(c.alphabet) == 2:
-            other = [x for x in c.alphabet if x != last]
-            if other and last + other[0] in c.patterns:
-                fut = fut & {last}
-            else:
-                fut = set(c.alphabet) - {p for p in c.patterns if len(p) == 1}
-        else:
-            fut = set(c.alphabet) - {p for p in c.patterns if len(p) == 1}
-    return fut
+    """letters that can still follow the prefix q in a word of the class: a sound over-approximation (only single-letter
+    and two-letter patterns are used): the letters reachable from the last letter of q through allowed successions"""
+    ok = [x for x in c.alphabet if x not in c.patterns]
+    if not q:
+        return set(ok)
+    nxt = {x: {y for y in ok if x + y not in c.patterns} for x in c.alphabet}
+    seen, frontier = set(), set(nxt.get(q[-1], set()))
+    while frontier:
+        seen |= frontier
+        frontier = set().union(*[nxt[x] for x in frontier]) - seen
+    return seen
 
 
 class ExpandTrim(Simple, DisjointUnionStrategy[WC, W]):
